@@ -185,6 +185,50 @@ def body_scale(env):
                            orig[a][0][k][idx] * factor, tol=1e-9)
 
 
+def body_linearity(env):
+    """Constant properties: scaling the power and every temperature excess over the inlet by s scales every temperature
+    rise of one real step by s (self-composition over the real region sub-steps; induction over the steps gives the sweep)."""
+    from harness import symregion as SR
+    import copy as _copy
+    n, nduct = env.params['n_ring'], env.params['n_duct']
+    with env.patch(SR.MODS):
+        r = SR.sym_rodded(env, n, nduct)
+        sc = r.subchannel
+        nsc, nd = sc.n_sc['coolant']['total'], sc.n_sc['duct']['total']
+        T0 = env.real('T_inlet', lo=300, hi=1000)
+        s_ = env.pos('power_scale', hi=10)
+        dz = env.pos('dz', hi=1)
+
+        def vec(nm, k, lo=None, hi=None):
+            a = np.empty(k, dtype=object)
+            for i in range(k):
+                a[i] = env.real('%s%d' % (nm, i), lo=lo, hi=hi, lo_strict=False)
+            return a.astype(float) if env.mode == 'replay' else a
+        qp, qc, qd = vec('q_pin', r.n_pin, 0, 1e6), vec('q_cool', nsc, 0, 1e5), vec('q_duct', nduct * nd, 0, 1e5)
+        tg = vec('Tgap', nd, 200, 3000)
+        hg = vec('htc_gap', nd, 1, 1e7)
+        r2 = _copy.copy(r)
+        r2.temp = {k: T0 + s_ * (v - T0) for k, v in r.temp.items()}
+        r2.ebal = {k: (v.copy() if hasattr(v, 'copy') else v) for k, v in r.ebal.items()}
+        base = {k: v.copy() for k, v in r.temp.items()}
+        d1 = r._calc_coolant_int_temp(dz, qp, qc)
+        d2 = r2._calc_coolant_int_temp(dz, s_ * qp, s_ * qc)
+        for i in range(nsc):
+            env.eq('coolant cell %d: temperature rise scales with the power' % i, d2[i], s_ * d1[i], tol=1e-9, key='not_linear_in_power')
+        if nduct > 1:
+            b1, b2 = r._calc_coolant_byp_temp(dz), r2._calc_coolant_byp_temp(dz)
+            for g in range(r.n_bypass):
+                for c in range(nd):
+                    env.eq('bypass %d cell %d: temperature rise scales with the power' % (g, c), b2[g, c], s_ * b1[g, c], tol=1e-9,
+                           key='not_linear_in_power')
+        r._calc_duct_temp(qd, tg, hg, False)
+        r2._calc_duct_temp(s_ * qd, T0 + s_ * (tg - T0), hg, False)
+        for w in range(nduct):
+            for c in range(nd):
+                env.eq('duct %d mid-wall cell %d: excess over the inlet scales with the power' % (w, c), r2.temp['duct_mw'][w, c] - T0,
+                       s_ * (r.temp['duct_mw'][w, c] - T0), tol=1e-9, key='not_linear_in_power')
+
+
 def instances(tier):
     inst = []
     zfm2 = [0.0, 10.0, 25.0]
@@ -218,6 +262,8 @@ def instances(tier):
         for user in (False, True):
             inst.append(dict(label='scale[assemblies=%d,requested_total=%s]' % (nasm, user), body=body_scale,
                              params={'nasm': nasm, 'user_total': user}))
+    for n, d in (((2, 1), (2, 2)) if tier == 'quick' else ((2, 1), (2, 2), (3, 1), (3, 2), (4, 1))):
+        inst.append(dict(label='linearity[rings=%d,ducts=%d]' % (n, d), body=body_linearity, params={'n_ring': n, 'n_duct': d}, timeout_ms=120000))
     return inst
 
 
@@ -233,7 +279,7 @@ def main():
         bounds={'power cells': '2..3', 'steps per power cell': '1..3', 'polynomial terms': '1..2 (sweep), 1..3(4) (_integrate)',
                 'components': 'pins(2) + duct(1) + coolant(1), pins only', 'bundle bounds': 'whole core / on cell boundaries / strictly inside a cell'},
         outside=['CSV parsing and VARPOW/binary flux power (claim starts at the parsed arrays)',
-                 'negative-power clipping (profiles assumed non-negative on the cell)', 'linearity of temperatures in the power (follows from C01/C04 affinity)'],
+                 'negative-power clipping (profiles assumed non-negative on the cell)', 'linearity over the whole sweep (one real step is claimed: linearity[...] instances; the sweep follows by induction with frozen properties)'],
         level_assumptions=['profiles a + b z* with a >= |b|/2 (non-negative on [-1/2, 1/2])',
                            'axial planes contain the power-mesh boundaries and the bundle bounds (C05)'])
 
